@@ -271,7 +271,12 @@ pub fn guard<T>(f: impl FnOnce() -> T) -> Result<T, String> {
 
 /// Run an oracle on a case, with panic capture.
 pub fn eval(oracle: OracleFn, case: &[u8], obs: &mut Obs) -> Result<(), String> {
-    match guard(|| oracle(case, obs)) {
+    let _ = crate::choice::take_ran_out();
+    let res = guard(|| oracle(case, obs));
+    if crate::choice::take_ran_out() {
+        obs.label("choice_sequence_ran_out");
+    }
+    match res {
         Ok(r) => r,
         Err(p) => {
             let _ = alloc::close();
